@@ -61,6 +61,11 @@ import (
 func TestMain(m *testing.M) {
 	simcore.InitProcess()
 	profStart()
+	if os.Getenv("GOMAXPROCS") == "" {
+		// one bubble runs at a time and at most one chain of goroutines is runnable in it:
+		// more Ps only add cross-thread wake-ups (the runner parallelises across workers)
+		runtime.GOMAXPROCS(1)
+	}
 	os.Exit(m.Run())
 }
 
@@ -108,8 +113,8 @@ func genConfig(rng *simcore.RNG, env *simcore.Env) simcore.Op {
 		c["nops"] = rng.Range(60, 380)
 	}
 	c["gossip_ms"] = []int{10, 30, 100}[rng.Intn(3)]
-	c["maj23_ms"] = []int{50, 250, 1000}[rng.Intn(3)]
-	c["commit_ms"] = []int{30, 80, 200}[rng.Intn(3)]
+	c["maj23_ms"] = []int{50, 150, 400}[rng.Intn(3)]
+	c["commit_ms"] = []int{50, 120, 250}[rng.Intn(3)]
 	c["pex"] = rng.Bool(0.7)
 	c["max_tx"] = []int{512, 4096, 65536}[rng.Intn(3)]
 	c["mp_size"] = []int{5, 50, 500}[rng.Intn(3)]
@@ -257,8 +262,9 @@ type sentRec struct {
 }
 
 type recvItem struct {
-	ch byte
-	bz []byte
+	ch   byte
+	bz   []byte
+	size int // > 0: the message's size on the wire (its bytes are not materialised)
 }
 
 type simPeer struct {
@@ -410,6 +416,7 @@ type peerM struct {
 	pendKind string
 	lastCh   byte
 	lastBz   []byte
+	lastSize int
 	lastKind string
 	nrs      bool // sent a NewRoundStep that the reactor accepted
 	deliv    int
@@ -702,7 +709,7 @@ func (s *sim) join(idx int, hostile, out, mute bool, order []int) *peerM {
 // recvRoutine is the peer's receive goroutine (MConnection.recvRoutine).
 func (s *sim) recvRoutine(sp *simPeer) {
 	for it := range sp.inbox {
-		s.dispatch(sp, it.ch, it.bz)
+		s.dispatch(sp, it.ch, it.bz, it.size)
 		sp.mu.Lock()
 		sp.done++
 		sp.mu.Unlock()
@@ -710,7 +717,7 @@ func (s *sim) recvRoutine(sp *simPeer) {
 }
 
 // dispatch is p2p/peer.go's onReceive inside MConnection's recover.
-func (s *sim) dispatch(sp *simPeer, chID byte, bz []byte) {
+func (s *sim) dispatch(sp *simPeer, chID byte, bz []byte, size int) {
 	defer func() {
 		// a panic while tearing the peer down is outside any recover in production
 		if r := recover(); r != nil {
@@ -732,9 +739,12 @@ func (s *sim) dispatch(sp *simPeer, chID byte, bz []byte) {
 		if ci == nil {
 			panic(fmt.Sprintf("Unknown channel %X", chID))
 		}
-		if len(bz) > ci.desc.RecvMessageCapacity {
+		if size < len(bz) {
+			size = len(bz)
+		}
+		if size > ci.desc.RecvMessageCapacity {
 			// MConnection.recvPacketMsg refuses it before the reactor sees anything
-			s.sw.StopPeerForError(sp, fmt.Errorf("received message exceeds available capacity: %v < %v", ci.desc.RecvMessageCapacity, len(bz)))
+			s.sw.StopPeerForError(sp, fmt.Errorf("received message exceeds available capacity: %v < %v", ci.desc.RecvMessageCapacity, size))
 			return
 		}
 		msg := proto.Clone(ci.desc.MessageType)
@@ -759,13 +769,17 @@ func (s *sim) dispatch(sp *simPeer, chID byte, bz []byte) {
 // deliver hands one message to the peer's receive goroutine and settles. It reports whether
 // the reactor call returned.
 func (s *sim) deliver(pm *peerM, ch byte, bz []byte, kind string) bool {
+	return s.deliverSized(pm, ch, bz, 0, kind)
+}
+
+func (s *sim) deliverSized(pm *peerM, ch byte, bz []byte, size int, kind string) bool {
 	pm.pending = true
 	pm.pendAt = time.Now()
 	pm.pendKind = kind
-	pm.lastCh, pm.lastBz, pm.lastKind = ch, bz, kind
+	pm.lastCh, pm.lastBz, pm.lastSize, pm.lastKind = ch, bz, size, kind
 	pm.deliv++
 	before := pm.sp.doneCount()
-	pm.sp.inbox <- recvItem{ch, bz}
+	pm.sp.inbox <- recvItem{ch, bz, size}
 	s.env.Settle()
 	if pm.sp.doneCount() > before {
 		pm.pending = false
@@ -1023,8 +1037,12 @@ func (s *sim) probeGossip(ctx string) {
 			if a.ba.Size() > 1<<26 || len(a.ba.Elems) > 1<<20 {
 				continue // the allocation oracle owns absurd sizes; do not copy them here
 			}
-			own := bits.NewBitArray(a.n)
-			what := ""
+			on := a.n
+			if on > 2048 {
+				on = 2048
+			}
+			own := bits.NewBitArray(on)
+			what, at := "", -1
 			msg := tryPanic(func() {
 				c := cloneBA(a.ba)
 				what = "Copy"
@@ -1037,13 +1055,21 @@ func (s *sim) probeGossip(ctx string) {
 					what = "Not().PickRandom"
 					_, _ = c.Not().PickRandom()
 				}
-				for i := 0; i < a.n; i++ {
-					what = fmt.Sprintf("SetIndex(%d)", i)
+				n := a.n
+				if n > 2048 {
+					n = 2048
+				}
+				what = "SetIndex"
+				for i := 0; i < n; i++ {
+					at = i
 					c.SetIndex(i, true)
 				}
 			})
 			if msg == "" {
 				continue
+			}
+			if at >= 0 {
+				what = fmt.Sprintf("%s(%d)", what, at)
 			}
 			s.env.Count("probe.gossip_crash_predicted")
 			detail := fmt.Sprintf("%s: peer %d's PeerState.%s is BitArray{Bits:%d, len(Elems):%d} after its last message (%s); %s on it panics (%s). The consensus reactor's gossip routines perform this call outside any recover (gossipDataRoutine/gossipVotesRoutine -> PeerState.SetHas*/PickSendVote/BitArray.PickRandom): the node process would crash",
@@ -1284,11 +1310,11 @@ func (s *sim) Apply(op simcore.Op) (ok bool) {
 		s.hostileDelivery(pm, h)
 	case "dup":
 		pm := s.peers[op.Int("p")]
-		if pm == nil || pm.pending || !pm.hostile || !pm.live || pm.lastBz == nil {
+		if pm == nil || pm.pending || !pm.hostile || !pm.live || (pm.lastBz == nil && pm.lastSize == 0) {
 			return false
 		}
 		for i := 0; i < op.Int("n") && !pm.pending; i++ {
-			s.hostileDelivery(pm, &hostileMsg{ch: pm.lastCh, bz: pm.lastBz, kind: "dup:" + strings.TrimPrefix(pm.lastKind, "dup:")})
+			s.hostileDelivery(pm, &hostileMsg{ch: pm.lastCh, bz: pm.lastBz, size: pm.lastSize, kind: "dup:" + strings.TrimPrefix(pm.lastKind, "dup:")})
 		}
 		e.Count("op.dup")
 	case "hon":
@@ -1348,11 +1374,25 @@ func (s *sim) hostileDelivery(pm *peerM, h *hostileMsg) {
 	e := s.env
 	wasLive := pm.live
 	m0 := s.memBefore()
-	if h.big != "" && wasLive {
-		s.lastBig, s.lastBigDesc = h.kind, fmt.Sprintf("%s from peer %d with %s", h.kind, pm.idx, h.big)
+	if h.big != "" {
+		// attribution of later allocations: the two message kinds whose sizes the node is known
+		// to act on take precedence over whatever came last
+		k := strings.TrimPrefix(strings.TrimPrefix(h.kind, "dup:"), "raw.mut:")
+		prio := func(x string) int {
+			switch x {
+			case "cons.prop":
+				return 2
+			case "ss.snapresp":
+				return 1
+			}
+			return 0
+		}
+		if prio(k) >= prio(s.lastBig) {
+			s.lastBig, s.lastBigDesc = k, fmt.Sprintf("%s from peer %d with %s", h.kind, pm.idx, h.big)
+		}
 		e.Count("fault.big_size_msg")
 	}
-	returned := s.deliver(pm, h.ch, h.bz, h.kind)
+	returned := s.deliverSized(pm, h.ch, h.bz, h.size, h.kind)
 	e.Count("op.hostile")
 	e.Count("hostile." + h.kind)
 	if !wasLive {
